@@ -285,7 +285,9 @@ func (vr *variableResolver) resolve(ctx *ExecutionContext) (*Value, error) {
 			// Before resolving the pointer, let's see if we have a method to call
 			// Problem with resolving the pointer is we're changing the receiver
 			isFunc := false
-			if part.typ == varTypeIdent {
+			if part.typ == varTypeIdent && !(current.Kind() == reflect.Ptr && current.IsNil()) {
+				// (no method is called on a nil pointer: a value method would panic, and a
+				// nil along the way yields nil)
 				funcValue := current.MethodByName(part.s)
 				if funcValue.IsValid() {
 					current = funcValue
@@ -324,7 +326,7 @@ func (vr *variableResolver) resolve(ctx *ExecutionContext) (*Value, error) {
 					// Calling a field or key
 					switch current.Kind() {
 					case reflect.Struct:
-						current = current.FieldByName(part.s)
+						current = fieldByName(current, part.s)
 						if current.IsValid() && !current.CanInterface() {
 							// Unexported fields are not accessible (like a missing field)
 							return AsValue(nil), nil
@@ -362,7 +364,7 @@ func (vr *variableResolver) resolve(ctx *ExecutionContext) (*Value, error) {
 						if err != nil {
 							return nil, err
 						}
-						current = current.FieldByName(sv.String())
+						current = fieldByName(current, sv.String())
 						if current.IsValid() && !current.CanInterface() {
 							// Unexported fields are not accessible (like a missing field)
 							return AsValue(nil), nil
@@ -497,6 +499,11 @@ func (vr *variableResolver) resolve(ctx *ExecutionContext) (*Value, error) {
 				if p.Kind() == reflect.Invalid {
 					return nil, fmt.Errorf("calling a function using an invalid parameter")
 				}
+			}
+
+			if current.IsNil() {
+				// A nil func (e.g. an unset callback field) is a nil value
+				return AsValue(nil), nil
 			}
 
 			// Call it and get first return parameter back
